@@ -88,6 +88,10 @@ def knn_cases(draw):
         qs = draw(st.lists(st.tuples(st.integers(max(0, o - 20), o + 15 * sx + 20), st.integers(max(0, o - 20), o + 15 * sy + 20)), min_size=1, max_size=20))
         qs = [[float(a), float(b)] for a, b in qs]
         mode = "pixel"
+    # re-occupied stations: the same position more than once, each time with its own value
+    for i in draw(st.lists(st.integers(0, n - 1), max_size=3)) if draw(st.integers(0, 2)) == 0 else []:
+        pts = pts + [list(pts[i])]
+    n = len(pts)
     vals = draw(st.lists(st.one_of(st.integers(-100, 100).map(float), gen.finite(-1e3, 1e3)), min_size=n, max_size=n))
     return dict(mode=mode, data=pts, values=vals, query=qs, k=draw(st.integers(1, n)), reduction=draw(st.sampled_from(list(REDS))),
                 dshape=draw(st.sampled_from(blocks.shape_options(n))), qshape=draw(st.sampled_from(blocks.shape_options(len(qs)))),
@@ -139,6 +143,8 @@ def check_knn(case, ctx):
 @st.composite
 def median_cases(draw):
     mode, pts = draw(clouds(min_n=2))
+    for i in draw(st.lists(st.integers(0, len(pts) - 1), max_size=2)) if draw(st.integers(0, 2)) == 0 else []:
+        pts = pts + [list(pts[i])]  # a repeated position: its nearest other point is at distance 0
     n = len(pts)
     return dict(mode=mode, data=pts, k=draw(st.integers(1, n - 1)), shape=draw(st.sampled_from(blocks.shape_options(n))),
                 proj=draw(st.one_of(st.none(), st.tuples(st.sampled_from([1.0, 2.0, 0.5, 10.0, -1.0]), st.sampled_from([1.0, 3.0, 0.25, -2.0])),
@@ -187,6 +193,17 @@ def mask_cases(draw):
         pad = draw(st.sampled_from([0.0, 1.0, 5.0]))
         case["east"] = np.linspace(min(xs) - pad, max(xs) + pad, nx).tolist() if mode != "lattice" else [float(v) for v in range(int(min(xs)) - 1, int(min(xs)) - 1 + nx)]
         case["north"] = np.linspace(min(ys) - pad, max(ys) + pad, ny).tolist() if mode != "lattice" else [float(v) for v in range(int(min(ys)) - 1, int(min(ys)) - 1 + ny)]
+        # axes of real grids are not always evenly spaced or ascending: warp the spacing (monotonically) and/or reverse the direction
+        axes_kind = draw(st.sampled_from(["even", "even", "uneven", "descending", "uneven_descending"]))
+        for key in ("east", "north"):
+            a = np.array(case[key], dtype="float64")
+            if "uneven" in axes_kind and a.size >= 3 and a[-1] != a[0]:
+                t = (a - a[0]) / (a[-1] - a[0])
+                a = a[0] + (a[-1] - a[0]) * t**2 if mode != "lattice" else np.concatenate([a[:1], a[1:] + np.arange(a.size - 1) ** 2])
+            if "descending" in axes_kind:
+                a = a[::-1]
+            case[key] = a.tolist()
+        case["axes_kind"] = axes_kind
         case["nvars"] = draw(st.integers(1, 2))
         case["grid_build"] = draw(st.sampled_from(["dataset", "dataarray"]))
     if mode == "lattice" and proj is None:
